@@ -384,7 +384,7 @@ func (db *MultiBucketBackend) HeadObject(bucketName, objectName string) (*gofake
 	fullPath := path.Join(bucketName, objectName)
 
 	stat, err := db.bucketFs.Stat(filepath.FromSlash(fullPath))
-	if os.IsNotExist(err) {
+	if notExist(err) {
 		return nil, gofakes3.KeyNotFound(objectName)
 	} else if err != nil {
 		return nil, err
@@ -428,7 +428,7 @@ func (db *MultiBucketBackend) GetObject(bucketName, objectName string, rangeRequ
 	fullPath := path.Join(bucketName, objectName)
 
 	f, err := db.bucketFs.Open(filepath.FromSlash(fullPath))
-	if os.IsNotExist(err) {
+	if notExist(err) {
 		return nil, gofakes3.KeyNotFound(objectName)
 	} else if err != nil {
 		return nil, err
@@ -573,14 +573,14 @@ func (db *MultiBucketBackend) deleteObjectLocked(bucketName, objectName string) 
 
 	// S3 does not report an error when attemping to delete a key that does not exist, so
 	// we need to skip IsNotExist errors.
-	if isDir, err := afero.DirExists(db.bucketFs, filepath.FromSlash(fullPath)); err != nil {
+	if isDir, err := dirExists(db.bucketFs, filepath.FromSlash(fullPath)); err != nil {
 		return err
 	} else if isDir {
 		// a directory is a prefix of other keys, not a key: nothing to delete
 		return nil
 	}
 
-	if err := db.bucketFs.Remove(filepath.FromSlash(fullPath)); err != nil && !os.IsNotExist(err) {
+	if err := db.bucketFs.Remove(filepath.FromSlash(fullPath)); err != nil && !notExist(err) {
 		return err
 	}
 
